@@ -621,6 +621,16 @@ class AstInterpreter(InterpreterBase):
                 return left in right
             elif node.ctype == 'not in':
                 return left not in right
+            elif isinstance(left, int) and isinstance(right, int):
+                if node.ctype == '<':
+                    return left < right
+                elif node.ctype == '<=':
+                    return left <= right
+                elif node.ctype == '>':
+                    return left > right
+                elif node.ctype == '>=':
+                    return left >= right
+            return UnknownValue()
         elif isinstance(node, mparser.TernaryNode):
             cond = self.node_to_runtime_value(node.condition)
             if isinstance(cond, UnknownValue):
